@@ -23,9 +23,32 @@ Inductive method :=
 | MStoreDeviceAuthorization | MGetDeviceAuthorizatonState
 | MUnknown.   (* a journal entry the model does not know: always a mismatch *)
 
-(* how an injected failure looks to the handler: an ordinary error, or
-   context.DeadlineExceeded *)
-Inductive kind := KError | KDeadline.
+(* the VALUE of an injected failure, as far as Go code can tell values apart with
+   errors.Is / errors.As / type switches: *)
+Inductive ecode := EServerError | EInvalidRequest | EInvalidClient | EAccessDenied.
+Inductive ebase :=
+| BPlain                                   (* errors.New(...) *)
+| BDeadline                                (* context.DeadlineExceeded *)
+| BCanceled                                (* context.Canceled *)
+| BOidc (c : ecode) (redirect_disabled : bool)   (* *oidc.Error of that code [WithRedirectDisabled] *)
+| BDupUserCode                             (* op.ErrDuplicateUserCode *)
+| BInvalidRefresh.                         (* op.ErrInvalidRefreshToken *)
+(* wrapped = fmt.Errorf("...: %w", base): visible to errors.Is/As, not to ==, type
+   assertions or json.Marshal *)
+Record kind := K { k_base : ebase; k_wrapped : bool }.
+
+Definition all_codes := [EServerError; EInvalidRequest; EInvalidClient; EAccessDenied].
+Definition all_bases : list ebase :=
+  [BPlain; BDeadline; BCanceled; BDupUserCode; BInvalidRefresh]
+  ++ flat_map (fun c => [BOidc c false; BOidc c true]) all_codes.
+Definition all_kinds : list kind := flat_map (fun b => [K b false; K b true]) all_bases.
+
+(* errors.As(err, **oidc.Error) *)
+Definition as_oidc (kd : kind) : option (ecode * bool) :=
+  match k_base kd with BOidc c rd => Some (c, rd) | _ => None end.
+(* errors.Is(err, context.DeadlineExceeded) / (err, op.ErrInvalidRefreshToken) *)
+Definition is_deadline (kd : kind) : bool := match k_base kd with BDeadline => true | _ => false end.
+Definition is_invalid_refresh (kd : kind) : bool := match k_base kd with BInvalidRefresh => true | _ => false end.
 
 (* projected class of an HTTP answer (DESIGN 4.7) *)
 Inductive rclass :=
@@ -45,7 +68,6 @@ Inductive cred :=
 | CDevice.          (* device_code / user_code of the device authorization answer *)
 
 Scheme Equality for method.
-Scheme Equality for kind.
 Scheme Equality for rclass.
 Scheme Equality for cred.
 
@@ -108,28 +130,25 @@ Fixpoint upto_fault (t : list entry) : list entry :=
 Fixpoint all_leaves (P : resp -> bool) (g : prog) : bool :=
   match g with
   | Ret r => P r
-  | Call _ h k => all_leaves P (h KError) && all_leaves P (h KDeadline) && all_leaves P k
+  | Call _ h k => forallb (fun kd => all_leaves P (h kd)) all_kinds && all_leaves P k
   end.
 
-(* whatever happens after a failing call of a method that is not excused
-   ends in an answer satisfying P *)
-Fixpoint fail_closed_prog (P : resp -> bool) (excused : method -> bool) (g : prog) : bool :=
+(* whatever happens after a failing call ends in an answer satisfying P, unless that
+   (method, failure value) pair is excused *)
+Fixpoint fail_closed_prog (P : resp -> bool) (excused : method -> kind -> bool) (g : prog) : bool :=
   match g with
   | Ret _ => true
   | Call m h k =>
-      (excused m || (all_leaves P (h KError) && all_leaves P (h KDeadline)))
+      forallb (fun kd => excused m kd || all_leaves P (h kd)) all_kinds
       && fail_closed_prog P excused k
   end.
 
 (* every failure handler on the fault-free path answers at once (no further storage call) *)
+Definition is_ret (g : prog) : bool := match g with Ret _ => true | Call _ _ _ => false end.
 Fixpoint strict (g : prog) : bool :=
   match g with
   | Ret _ => true
-  | Call _ h k =>
-      match h KError, h KDeadline with
-      | Ret _, Ret _ => strict k
-      | _, _ => false
-      end
+  | Call _ h k => forallb (fun kd => is_ret (h kd)) all_kinds && strict k
   end.
 
 (* on the fault-free path every call of method m answers a failure with [Ret (a kd)] *)
